@@ -35,3 +35,18 @@ def memoised(path):
 
 def dynamic(expr):
     return eval(expr)
+
+
+REGISTRY = {}
+
+
+def shared_state_through_alias(key):
+    table = REGISTRY
+    table.pop(key, None)
+    return table
+
+
+def list_extended_by_set(atoms, extra):
+    chosen = set(extra)
+    atoms += chosen.difference(atoms)
+    return atoms
